@@ -81,12 +81,14 @@ template <class T> struct Acc : public Array0<T> {             // a derived clas
     Acc(size_t s, const T& t) : Array0<T>(s, t) {}
     Acc(const Acc& p, givNoCopy c) : Array0<T>(p, c) {}
     Acc(const Acc& p, givWithCopy c) : Array0<T>(p, c) {}
+    Acc(const Acc& p) : Array0<T>(static_cast<const Array0<T>&>(p)) {}     // Array0's own copy constructor
     int* cnt() const { return this->_cnt; }
     T* dat() const { return this->_d; }
     size_t psz() const { return this->_psz; }
 };
 
 static const long WILD = LONG_MIN;
+static bool on_free_list(const void* data);
 // value-semantics oracle with alias groups: a logical copy joins the group of its source
 struct OHandle { std::shared_ptr<std::vector<long> > grp; size_t size; OHandle() : size(0) {} };
 struct Oracle {
@@ -115,6 +117,8 @@ struct Oracle {
         OHandle src = h[s];
         reallocate(i, src.size);
         for (size_t k = 0; k < src.size; ++k) (*h[i].grp)[k] = (*src.grp)[k]; }
+    void write(int i, size_t k, long v) { if (k < h[i].size) (*h[i].grp)[k] = v; }
+    void reserve(int i, size_t n) { reallocate(i, n); reallocate(i, 0); }
     long counter(int i) const { return h[i].grp ? (long) h[i].grp.use_count() : 0; }
 };
 
@@ -124,7 +128,7 @@ static Op parse_op(const std::string& t) {
     long v[3] = {0, 0, 0}; int n = 0; std::stringstream ss(t.substr(1)); std::string part;
     while (std::getline(ss, part, ',') && n < 3) v[n++] = atol(part.c_str());
     o.h = (int) v[0];
-    if (o.kind == 'B') { o.a = v[1]; o.b = v[2]; }
+    if (o.kind == 'B' || o.kind == 'X') { o.a = v[1]; o.b = v[2]; }
     else if (o.kind == 'P') { o.b = v[1]; }
     else if (o.kind != 'D') { o.a = v[1]; }
     return o;
@@ -154,12 +158,12 @@ template <class T> struct World {
     }
     int defect(const Fx& fx, const Op& o) {
         switch (o.kind) {
-        case 'R': return realloc_defect(fx, o.h, (size_t) o.a);
+        case 'R': case 'V': return realloc_defect(fx, o.h, (size_t) o.a);
         case 'P': return realloc_defect(fx, o.h, H(o.h).size() + 1);
         case 'C': if (H((int) o.a).dat() == H(o.h).dat()) return 0; return realloc_defect(fx, o.h, H((int) o.a).size());
         case 'N': if (o.h == (int) o.a) return 0;
                   return (!fx.nocopy && H((int) o.a).size() == 0 && H((int) o.a).psz() != 0) ? 4 : 0;
-        case 'L': return (!fx.selflog && o.h == (int) o.a && H(o.h).size() != 0) ? 6 : 0;
+        case 'L': return (!fx.selflog && o.h == (int) o.a && H(o.h).psz() != 0) ? 6 : 0;
         default: return 0;
         }
     }
@@ -169,7 +173,9 @@ template <class T> struct World {
         case 'B': x.~Acc<T>();
                   if (g_forms && o.b == 0) new (&buf[o.h]) Acc<T>((size_t) o.a); else new (&buf[o.h]) Acc<T>((size_t) o.a, T(o.b));
                   orc.build(o.h, (size_t) o.a, o.b); break;
-        case 'W': if (o.h == (int) o.a) break; x.~Acc<T>(); new (&buf[o.h]) Acc<T>(H((int) o.a), givWithCopy()); orc.withcopy(o.h, (int) o.a); break;
+        case 'W': if (o.h == (int) o.a) break; x.~Acc<T>();
+                  if (g_forms == 2) new (&buf[o.h]) Acc<T>(H((int) o.a)); else new (&buf[o.h]) Acc<T>(H((int) o.a), givWithCopy());
+                  orc.withcopy(o.h, (int) o.a); break;
         case 'N': if (o.h == (int) o.a) break; x.~Acc<T>(); new (&buf[o.h]) Acc<T>(H((int) o.a), givNoCopy()); orc.share(o.h, (int) o.a); break;
         case 'L': x.logcopy(H((int) o.a)); orc.share(o.h, (int) o.a); break;
         case 'C': if (g_forms) static_cast<Array0<T>&>(x) = static_cast<const Array0<T>&>(H((int) o.a)); else x.copy(H((int) o.a));
@@ -178,6 +184,18 @@ template <class T> struct World {
         case 'R': if (g_forms) x.resize((size_t) o.a); else x.reallocate((size_t) o.a); orc.reallocate(o.h, (size_t) o.a); break;
         case 'P': x.push_back(T(o.b)); orc.push_back(o.h, o.b); break;
         case 'D': x.destroy(); orc.detach(o.h); break;
+        case 'V': x.reserve((size_t) o.a); orc.reserve(o.h, (size_t) o.a); break;
+        case 'X': {
+            size_t k = (size_t) o.a;
+            if (k < x.size()) {
+                if (!g_forms) x.write(k, T(o.b));
+                else if (k == 0 && (o.b & 1)) x.front() = T(o.b);
+                else if (k + 1 == x.size() && (o.b & 2)) x.back() = T(o.b);
+                else if (o.b & 4) *(x.begin() + k) = T(o.b);
+                else if (o.b & 8) *(x.end() - (x.size() - k)) = T(o.b);
+                else x[k] = T(o.b);
+            }
+            orc.write(o.h, k, o.b); break; }
         }
         if (addr) for (int i = 0; i < nh; ++i) { addr_id(H(i).dat()); addr_id(H(i).cnt()); }
     }
@@ -187,7 +205,18 @@ template <class T> struct World {
             out.push_back((long) x.size()); out.push_back((long) x.psz());
             if (x.cnt()) { out.push_back(1); out.push_back(x.getCounter()); } else { out.push_back(0); out.push_back(0); }
             if (addr) { out.push_back(addr_id(x.dat())); out.push_back(addr_id(x.cnt())); }
-            for (size_t k = 0; k < x.size(); ++k) out.push_back(cell_value(x.dat()[k]));
+            for (size_t k = 0; k < x.size(); ++k) out.push_back(cell(i, k));
+        }
+    }
+    // element k of handle i through the public read accessors
+    long cell(int i, size_t k) {
+        const Acc<T>& x = H(i);
+        if (!g_forms) { T v; x.read(k, v); return cell_value(v); }
+        switch ((k + i) % 4) {
+        case 0: return cell_value(x[k]);
+        case 1: return cell_value(*(x.begin() + k));
+        case 2: return cell_value(k == 0 ? x.front() : (k + 1 == x.size() ? x.back() : x[k]));
+        default: return cell_value(*(x.end() - (x.size() - k)));
         }
     }
     std::string show() {
@@ -200,7 +229,7 @@ template <class T> struct World {
             if (addr) { if (x.dat()) o << addr_id(x.dat()); else o << "-"; o << ","; if (x.cnt()) o << addr_id(x.cnt()); else o << "-"; }
             else o << "?,?";
             o << "[";
-            for (size_t k = 0; k < x.size(); ++k) { if (k) o << " "; o << cell_value(x.dat()[k]); }
+            for (size_t k = 0; k < x.size(); ++k) { if (k) o << " "; o << cell(i, k); }
             o << "] ";
         }
         return o.str();
@@ -215,8 +244,10 @@ template <class T> struct World {
             if (c != orc.counter(i)) o << "h" << i << ".counter=" << c << " expected " << orc.counter(i) << "; ";
             for (size_t k = 0; k < x.size(); ++k) {
                 long e = (*orc.h[i].grp)[k];
-                if (e != WILD && cell_value(x.dat()[k]) != e) o << "h" << i << "[" << k << "]=" << cell_value(x.dat()[k]) << " expected " << e << "; ";
+                if (e != WILD && cell(i, k) != e) o << "h" << i << "[" << k << "]=" << cell(i, k) << " expected " << e << "; ";
             }
+            if (x.phsize() != x.psz() || (x.baseptr() != x.dat())) o << "h" << i << ".phsize/baseptr inconsistent; ";
+            if (x.cnt() && (on_free_list(x.cnt()) || on_free_list(x.dat()))) o << "h" << i << " refers to a block that is on a free list; ";
             for (int j = 0; j < i; ++j) {
                 bool shared = x.dat() && x.dat() == H(j).dat();
                 bool eshared = orc.h[i].grp && orc.h[i].grp == orc.h[j].grp;
@@ -227,14 +258,26 @@ template <class T> struct World {
     }
 };
 
+static bool on_free_list(const void* data) {
+    int idx = header_index(data);
+    if (idx < 0 || idx >= 512) return false;
+    long guard = 0;
+    for (void* b = tabfree_head(idx); b; b = next_free(b)) { if ((const char*) b + HDR == (const char*) data) return true; if (++guard > 100000) return true; }
+    return false;
+}
+// blocks handed out by the pool and not returned, relative to the baseline taken at the start of a command:
+// every block the sequences touch is numbered by addr_id, every released block is on a free list
+static long g_base_ids = 0, g_base_free = 0;
+static void pool_baseline() { g_base_ids = (long) g_ids.size(); g_base_free = free_population(); }
 static long pool_outstanding() {
     if (pool_forwarding()) return 0;
     long f = free_population();
     if (f < 0) return -1;
-    return (long) g_ids.size() - f;
+    return ((long) g_ids.size() - g_base_ids) - (f - g_base_free);
 }
 
 template <class T> static std::string cmd_seq(bool stop, const Fx& fx, bool addr, int nh, const std::vector<std::string>& toks) {
+    pool_baseline();
     World<T> w(nh, addr);
     std::ostringstream out;
     for (size_t k = 0; k < toks.size(); ++k) {
@@ -242,23 +285,23 @@ template <class T> static std::string cmd_seq(bool stop, const Fx& fx, bool addr
         int d = w.defect(fx, o);
         if (stop && d) { out << "| df=" << d << " "; break; }
         w.apply(o);
-        if (stop) out << "| " << w.show();
-        else {
-            std::string diff = w.oracle_diff();
-            out << "| " << w.show();
-            if (!diff.empty()) { out << "ORACLE-MISMATCH step " << k << " (" << toks[k] << "): " << diff; break; }
-        }
+        std::string diff = w.oracle_diff();
+        out << "| " << w.show();
+        if (!diff.empty()) { out << "ORACLE-MISMATCH step " << k << " (" << toks[k] << "): " << diff; return out.str(); }
     }
-    if (stop) w.cleanup();    // after an executed defect the objects are not safe to destroy
+    if (stop) {    // after an executed defect the objects are not safe to destroy
+        w.cleanup();
+        if (addr) { long po = pool_outstanding(); if (po != 0) out << "POOL-LEAK outstanding=" << po; }
+    }
     return out.str();
 }
 
 struct AOp { char kind; int h; int arg; };
 static std::vector<AOp> alphabet(int nh, const std::vector<int>& sizes) {
-    std::vector<AOp> l; const char kinds[] = "BWNLCARPD";
+    std::vector<AOp> l; const char kinds[] = "BWNLCARPDXV";
     for (const char* k = kinds; *k; ++k)
         for (int h = 0; h < nh; ++h) {
-            if (*k == 'B' || *k == 'A' || *k == 'R') for (size_t i = 0; i < sizes.size(); ++i) l.push_back(AOp{*k, h, sizes[i]});
+            if (*k == 'B' || *k == 'A' || *k == 'R' || *k == 'V') for (size_t i = 0; i < sizes.size(); ++i) l.push_back(AOp{*k, h, sizes[i]});
             else if (*k == 'W' || *k == 'N') { for (int s = 0; s < nh; ++s) if (s != h) l.push_back(AOp{*k, h, s}); }
             else if (*k == 'L' || *k == 'C') { for (int s = 0; s < nh; ++s) l.push_back(AOp{*k, h, s}); }
             else l.push_back(AOp{*k, h, -1});
@@ -269,6 +312,7 @@ static Op op_of(const AOp& a, int k) {
     Op o; o.kind = a.kind; o.h = a.h; o.a = a.arg; o.b = 0;
     if (a.kind == 'B') o.b = 100 * (k + 1);
     if (a.kind == 'P') o.b = 100 * (k + 1) + 7;
+    if (a.kind == 'X') { o.a = k % 2; o.b = 100 * (k + 1) + 3 + 16 * (k % 5); }
     return o;
 }
 static int used_after(int mx, const AOp& a) {    // -2 = not canonical
@@ -282,7 +326,7 @@ static std::string show_seq(const std::vector<AOp>& seq) {
     for (size_t k = 0; k < seq.size(); ++k) {
         Op p = op_of(seq[k], (int) k);
         o << p.kind << p.h;
-        if (p.kind == 'B') o << "," << p.a << "," << p.b; else if (p.kind == 'P') o << "," << p.b; else if (p.kind != 'D') o << "," << p.a;
+        if (p.kind == 'B' || p.kind == 'X') o << "," << p.a << "," << p.b; else if (p.kind == 'P') o << "," << p.b; else if (p.kind != 'D') o << "," << p.a;
         o << " ";
     }
     return o.str();
@@ -321,7 +365,7 @@ template <class T> struct Enum {
 };
 template <class T> static std::string cmd_enum(const Fx& fx, bool addr, int nh, const std::vector<int>& sizes, int lmax, const std::vector<std::string>& prefix) {
     Enum<T> e; e.fx = fx; e.addr = addr; e.nh = nh; e.lmax = lmax; e.alpha = alphabet(nh, sizes); e.nodes = e.ndef = 0; e.nextra = 0;
-    g_h1 = g_h2 = 0;
+    g_h1 = g_h2 = 0; pool_baseline();
     std::vector<AOp> seq; int mx = -1;
     for (size_t i = 0; i < prefix.size(); ++i) {
         Op o = parse_op(prefix[i]); AOp a{o.kind, o.h, (int) o.a};
@@ -450,6 +494,11 @@ int main() {
         else if (t[0] == "implicitcopy") { r = cmd_implicitcopy(); }
         else if (t[0] == "alloc0") {     // executes allocate(0) for real (repro of the recorded defect; own process)
             void* p = GivMMFreeList::allocate(0); std::ostringstream o; o << "p=" << (p ? "nonnull" : "null"); if (p) o << " index=" << header_index(p); r = o.str();
+        }
+        else if (t[0] == "resize0") {    // resize(0, 0, 16) must hand out the data field of the block it takes from TabFree[15]
+            void* q = GivMMFreeList::allocate(16); GivMMFreeList::desallocate(q);
+            void* p = GivMMFreeList::resize(0, 0, 16);
+            std::ostringstream o; o << "offset=" << ((char*) p - (char*) q); r = o.str();
         }
         else if (t[0] == "forward") {
 #ifdef GIVARO_VERIF_HAVE_MM_HOOK
